@@ -20,7 +20,7 @@ def main():
         "hooks": {"guard": "verif (cargo feature of prqlc, off by default)",
                   "enable": "harness is built with `cargo build --features hooks`, which turns on prqlc/verif when /repo provides it (falls back to a build without hooks otherwise)",
                   "baseline_off_cmd": "cd /repo && cargo nextest run --workspace --no-fail-fast --test-threads 8 --offline || cargo test --workspace --no-fail-fast --offline",
-                  "source_commits": ["aba13a9", "c639c7f", "bf3dc9c", "cb7d822", "0c16ac0", "2449bda", "6355f84", "ed15649", "187d4c0", "09fdec1", "afd1fb4", "7f0b4c5", "6f601a5", "9541d73", "df49f7b", "91ab92a"], "add_only": True},
+                  "source_commits": ["aba13a9", "c639c7f", "bf3dc9c", "cb7d822", "0c16ac0", "2449bda", "6355f84", "ed15649", "187d4c0", "09fdec1", "afd1fb4", "7f0b4c5", "6f601a5", "9541d73", "df49f7b", "91ab92a", "b336c3d"], "add_only": True},
         "engines": [{"name": "lean-model", "path": "/verif/lean", "serves_properties": sorted(CHECKS),
                      "kind_free_text": "Lean 4 model + theorems (lake project PrqlModel, driver exe drv)"},
                     {"name": "vh", "path": "/verif/harness", "serves_properties": sorted(CHECKS),
